@@ -46,6 +46,9 @@ type strace struct {
 	DiskFail []bool `json:"diskFail,omitempty"`
 	KeySeed uint64 `json:"keySeed"`
 	Pass    string `json:"pass,omitempty"` // passphrase protecting the key file ("" = plaintext key file)
+	// StartPath: reloads go through LoadOrGenSFilePV, the function the node calls at every start (it loads and
+	// saves again), instead of the plain LoadSFilePV
+	StartPath bool `json:"startPath,omitempty"`
 }
 
 func (t *strace) pass() []byte {
@@ -122,6 +125,14 @@ type runner struct {
 	log       []string
 }
 
+func (r *runner) load(t *strace) *rcrypto.SFilePV {
+	if t.StartPath {
+		r.probes.Hit("fault.reload.node-start-path")
+		return rcrypto.LoadOrGenSFilePV(r.keyFile, r.stateFile, t.pass())
+	}
+	return rcrypto.LoadSFilePV(r.keyFile, r.stateFile, t.pass())
+}
+
 func (r *runner) fail(i int, check, f string, a ...interface{}) {
 	r.viol = append(r.viol, &chain.Violation{Check: check, Props: []string{"C20"}, Height: int64(i), Detail: fmt.Sprintf("request %d: ", i) + fmt.Sprintf(f, a...)})
 }
@@ -144,7 +155,7 @@ func run(t *strace, dir string) ([]*chain.Violation, *chain.Probes, []string) {
 	signed := map[hrs]*signedRec{}
 	for i, q := range t.Reqs {
 		if i < len(t.Reload) && t.Reload[i] {
-			r.pv = rcrypto.LoadSFilePV(r.keyFile, r.stateFile, t.pass())
+			r.pv = r.load(t)
 			r.probes.Hit("fault.reload")
 			if t.Pass != "" {
 				r.probes.Hit("fault.reload.encrypted-key")
@@ -199,7 +210,7 @@ func run(t *strace, dir string) ([]*chain.Violation, *chain.Probes, []string) {
 				panic(e)
 			}
 			if crashed {
-				r.pv = rcrypto.LoadSFilePV(r.keyFile, r.stateFile, t.pass())
+				r.pv = r.load(t)
 				r.probes.Hit("fault.reload")
 			} else if err == nil && len(sig) > 0 {
 				r.probes.Hit("fault.disk-unwritable.answered")
@@ -343,6 +354,7 @@ func generate(rng *core.Rand, tier string) *strace {
 		t.Reqs = append(t.Reqs, q)
 	}
 	t.Reload = make([]bool, len(t.Reqs))
+	t.StartPath = rng.Chance(0.5)
 	if rng.Intn(60) == 0 {
 		t.Pass = "verif-pass"
 		if len(t.Reqs) > 8 {
@@ -460,7 +472,7 @@ func Explore(tier string, seed uint64, world int) *chain.WorldResult {
 func shrink(t *strace, check string, world int) *strace {
 	best := t
 	for i := len(best.Reqs) - 1; i >= 0; i-- {
-		c := &strace{KeySeed: best.KeySeed, Pass: best.Pass}
+		c := &strace{KeySeed: best.KeySeed, Pass: best.Pass, StartPath: best.StartPath}
 		c.Reqs = append(append([]Req(nil), best.Reqs[:i]...), best.Reqs[i+1:]...)
 		c.Reload = append(append([]bool(nil), best.Reload[:i]...), best.Reload[i+1:]...)
 		if len(best.DiskFail) == len(best.Reqs) {
@@ -473,7 +485,7 @@ func shrink(t *strace, check string, world int) *strace {
 	}
 	for i := range best.Reload {
 		if best.Reload[i] {
-			c := &strace{KeySeed: best.KeySeed, Pass: best.Pass, Reqs: best.Reqs, Reload: append([]bool(nil), best.Reload...), DiskFail: best.DiskFail}
+			c := &strace{KeySeed: best.KeySeed, Pass: best.Pass, StartPath: best.StartPath, Reqs: best.Reqs, Reload: append([]bool(nil), best.Reload...), DiskFail: best.DiskFail}
 			c.Reload[i] = false
 			v, _, _ := run(c, scratch(world))
 			if len(v) > 0 && v[0].Check == check {
